@@ -199,14 +199,14 @@ def size_paths(rep, tier, rng):
                           what='right-hand side on the %dx%d grid (%s implementation) differs from the sample means' % (m - 1, m - 1, 'large' if (m - 1) ** 2 >= 200 else 'small'))
 
 
-def uniform_rhs_paths(rep, tier, rng):
+def uniform_rhs_paths(rep, tier, rng, clause='C17_SizePathsAgree', lvs=None):
     """right-hand side of the level-vector based (uniform grid) variant: component grids below and above the 200-point threshold use different
     implementations; both are compared with the sample means of the hats computed from the hat definition, on data that mixes samples exactly on
     grid lines (dyadic coordinates, also on lines of the finest grid) with generic samples"""
     from sparseSpACE.GridOperation import DensityEstimation
     from sparseSpACE.Grid import TrapezoidalGrid
     D = 2
-    lvs = [(2, 2), (3, 3), (4, 4), (5, 3), (3, 5)] + ([(4, 5), (6, 2), (1, 8)] if tier == 'thorough' else [])
+    lvs = lvs or ([(2, 2), (3, 3), (4, 4), (5, 3), (3, 5)] + ([(4, 5), (6, 2), (1, 8)] if tier == 'thorough' else []))
     for lv in lvs:
         for kind in ('lattice', 'mixed'):
             for with_classes in (False, True):
@@ -229,7 +229,7 @@ def uniform_rhs_paths(rep, tier, rng):
                     rep.exclude('uniform right-hand side %s: timeout' % (lv,))
                     continue
                 except Exception as ex:
-                    rep.violation('C17_NoException', {'stage': 'uniform-rhs', 'exception': type(ex).__name__}, {'levelvec': lv, 'exception': repr(ex)}, what='calculate_B(%s) raised %r' % (lv, ex))
+                    rep.violation(clause.split('_')[0] + '_NoException', {'stage': 'uniform-rhs', 'exception': type(ex).__name__}, {'levelvec': lv, 'exception': repr(ex)}, what='calculate_B(%s) raised %r' % (lv, ex))
                     continue
                 exp = []
                 sgn = y if with_classes else np.ones(n)
@@ -243,7 +243,7 @@ def uniform_rhs_paths(rep, tier, rng):
                 rep.count(1, key=('uniform-rhs', lv, kind, with_classes))
                 rep.residual('uniform_rhs_%s_grid' % ('large' if large else 'small'), ok)
                 if not ok:
-                    rep.violation('C17_SizePathsAgree', {'stage': 'size-paths', 'operation': 'uniform-rhs', 'large': large},
+                    rep.violation(clause, {'stage': 'size-paths', 'operation': 'uniform-rhs', 'large': large},
                                   {'levelvec': lv, 'data': kind, 'classes': with_classes, 'max_difference': float(np.max(np.abs(b - exp))) if b.shape == exp.shape else None},
                                   what='right-hand side of the level-%s grid (%d points, %s implementation, %s data) differs from the sample means of the hats' % (lv, len(exp), 'large' if large else 'small', kind))
 
